@@ -470,3 +470,12 @@ func vRawURL(c rune) bool {
 //@   requires forall(i, 0, len(value), value[i] != 0)
 //@   modifies nothing
 //@   call WriteString#1 assert (arg1 == string(c) && vRawURL(c)) || (arg1 == "\\" + string(c) && vBackslashOK(c)) || vHexEsc(arg1, c) || (0 < c && arg1 == "\\" + strconv.FormatInt(int64(c), 16) + " ")
+
+// A dimension whose unit could be read as an exponent (4e, 4E-3) is written with its first
+// letter escaped; the escape must decode to that very letter.
+//@ func (Dimension).serializeTo
+//@   props C20
+//@   modifies anything
+//@   requires writer != nil && t.Unit != "" && forall(i, 0, len(t.Unit), t.Unit[i] != 0)
+//@   call WriteString#2 assert arg1 == "\\45 " && t.Unit[0] == 'E'
+//@   call WriteString#3 assert arg1 == "\\65 " && t.Unit[0] == 'e'
